@@ -20,6 +20,9 @@ func parseStruct(rt reflect.Type, seen map[reflect.Type]*Struct) (*Struct, error
 		return s, nil
 	}
 	s := &Struct{Name: rt.Name(), GoType: rt}
+	if _, ok := reflect.PtrTo(rt).MethodByName("InitDefault"); ok {
+		s.HasInit = true // declares defaults (the values themselves are not part of the tags)
+	}
 	seen[rt] = s
 	for i := 0; i < rt.NumField(); i++ {
 		sf := rt.Field(i)
@@ -205,7 +208,11 @@ func (p *annotParser) typ(gt reflect.Type, annotated bool) (*Type, error) {
 	case reflect.Float64:
 		return scalar(KDouble, "double")
 	case reflect.String:
-		return scalar(KString, "string")
+		t, err := scalar(KString, "string")
+		if t != nil {
+			t.Named = gt.PkgPath() != ""
+		}
+		return t, err
 	case reflect.Struct:
 		if annotated {
 			w := p.name()
@@ -220,7 +227,11 @@ func (p *annotParser) typ(gt reflect.Type, annotated bool) (*Type, error) {
 		return &Type{Kind: KStruct, St: st}, nil
 	case reflect.Slice:
 		if gt.Elem().Kind() == reflect.Uint8 {
-			return scalar(KBinary, "binary")
+			t, err := scalar(KBinary, "binary")
+			if t != nil {
+				t.Named = gt.Name() != ""
+			}
+			return t, err
 		}
 		if !annotated {
 			return nil, fmt.Errorf("slice needs a list/set annotation")
